@@ -25,7 +25,7 @@ LEVEL = "translation_validation"
 MOD = "pv.props.c07"
 
 VARIANTS = ["all_stored", "all_subst", "all_inlined", "alternate", "random0", "random1", "random2", "named", "user_tags",
-            "stored_reductions", "subst_in_reduction", "materialize_with_mpms", "stored_output_copy"]
+            "stored_reductions", "subst_in_reduction", "materialize_with_mpms", "stored_output_copy", "tagged_inputs"]
 SYM_VARIANTS = ["prefix_sizeparam_stored", "prefix_sizeparam_subst", "all_stored", "alternate"]
 
 
@@ -52,6 +52,15 @@ def tagger(variant: str, seed: int):
             return pt.make_dict_of_named_arrays({
                 k: (dag[k].expr.tagged(ImplStored()) if not isinstance(dag[k].expr, pt.array.InputArgumentBase)
                     else dag[k].expr) for k in dag.keys()})
+        if variant == "tagged_inputs":
+            # implementation / user tags on the *inputs* (placeholders, wrapped data), also where an input is
+            # itself an output
+            def g(n):
+                if isinstance(n, pt.array.InputArgumentBase) and not isinstance(n, pt.array.SizeParam):
+                    r = n.tagged(ImplStored()).tagged(FooTag())
+                    return r.with_tagged_axis(0, BazAxisTag()) if r.ndim else r
+                return n
+            return pt.transform.map_and_copy(dag, g)
         nodes = _nodes_in_order(dag)
         outs = {id(dag[k].expr) for k in dag.keys()}
         order = {id(n): i for i, n in enumerate(nodes)}
@@ -228,7 +237,8 @@ def jobs(tier: str, seed: int):
     if not th:
         keep = {"reduce_of_expr", "sharing", "matmul_chain", "stack_of_reductions", "reshape_cf", "adv_index", "where_idx",
                 "roll_transpose", "einsum_forms", "data_wrappers", "mixed_pipeline", "reductions", "creation", "stack_concat",
-                "out_is_input", "csr_matmul", "loopy_calls"}
+                "out_is_input", "csr_matmul", "loopy_calls", "loopy_call_scalar_binding", "handmade_index_lambda",
+                "like_dtype_override"}
         progs = [p for p in progs if p.name in keep]
     J = []
     for P in progs:
@@ -249,7 +259,7 @@ def jobs(tier: str, seed: int):
                        "untagged NumPy meaning (CrossHair/z3).",
         "bounds": {"programs": [p.name for p in progs], "tag assignments per program": VARIANTS,
                    "inputs / element indices": "all"},
-        "outside": ["tags on input nodes", "AssumeNonNegative (an assumption tag, not a neutral one)",
+        "outside": ["AssumeNonNegative (an assumption tag, not a neutral one)",
                     "loopy's own code generation from the TranslationUnit"],
         "stubs": ["LoopyTarget subclass selecting loopy's C target (no OpenCL)"],
     }
